@@ -14,13 +14,18 @@ Reqs(o) == [i \in 1..Len(o.reqs) |-> Range(o.reqs[i])]
 Cred(o) == [s \in 0..(o.n - 1) |-> o.cred[s + 1]]
 
 ReqVerdict(o) ==
-  LET reqs == Reqs(o)
+  LET raw == Reqs(o)
+      ni == Range(o.notImpl)
+      reqs == Effective(raw, ni)          \* alternatives with a not-implemented scheme were dropped by configuration
       cred == Cred(o)
       callsOK == \A i \in 1..Len(o.calls) : cred[o.calls[i]] # "absent" /\ o.res[i] = cred[o.calls[i]]
-      impl == ImplOutcome(reqs, {}, cred) IN
-  IF /\ o.outcome \in Allowed(reqs, cred)
-     /\ (o.outcome = "401") = (o.status = 401)
-     /\ callsOK
+      impl == ImplOutcome(raw, ni, cred) IN
+  \* every alternative dropped: the statement does not say what an operation whose
+  \* requirements cannot be expressed should do; only "no crash" is judged
+  IF ni # {} /\ reqs = <<>> THEN (IF o.outcome \in {"handler", "401"} THEN "ok" ELSE "viol")
+  ELSE IF /\ o.outcome \in AllowedM(reqs, cred, Mentioned(raw))
+          /\ (o.outcome = "401") = (o.status = 401)
+          /\ callsOK
   THEN (IF impl.pc = o.outcome /\ impl.calls = o.calls THEN "ok" ELSE "drift")
   ELSE "viol"
 
